@@ -422,7 +422,7 @@ const KEEP: &[&str] = &[
 
 static RUN_SEQ: std::sync::atomic::AtomicU64 = std::sync::atomic::AtomicU64::new(0);
 
-pub fn one_run(sc: &Scenario, ex: &mut Explorer) -> (Vec<Value>, Value, bool) {
+pub fn one_run(sc: &Scenario, ex: &mut Explorer, gen: Value) -> (Vec<Value>, Value, bool) {
     let sc = Arc::new(sc.clone());
     let n = sc.actors.len();
     let w: W = Arc::new(Mutex::new(World {
@@ -517,7 +517,7 @@ pub fn one_run(sc: &Scenario, ex: &mut Explorer) -> (Vec<Value>, Value, bool) {
     evs.push(json!({"a": "obs.end", "who": "drv", "obj": "", "d": 0, "t": 0, "x": "", "fin": fin, "q": i64::from(run.quiescent)}));
     let bad = !run.quiescent;
     let meta = json!({"family": "lifecycle", "scenario": format!("{:?}", sc), "sched": ex.sched, "steps": run.steps,
-                      "quiescent": run.quiescent});
+                      "quiescent": run.quiescent, "gen": gen});
     drop(g);
     (evs, meta, bad)
 }
@@ -687,12 +687,12 @@ pub fn batch(out: &str, tier: &str, seed: u64) -> Value {
     let (dfs_cap, nrand, per) = if tier == "thorough" { (4000usize, 6000usize, 3usize) } else { (250usize, 700usize, 2usize) };
     let mut nontrivial = std::collections::HashSet::new();
     let mut bad_runs = 0u64;
-    for sc in micro_scenarios() {
+    for (mi, sc) in micro_scenarios().into_iter().enumerate() {
         let mut ex = Explorer::new(Mode::Dfs { preempt_bound: Some(2) }, seed);
         let mut n = 0;
         loop {
             ex.begin_run();
-            let (evs, meta, bad) = one_run(&sc, &mut ex);
+            let (evs, meta, bad) = one_run(&sc, &mut ex, json!({"kind": "micro", "idx": mi}));
             let h = b.run(meta, &evs);
             if ex.nontrivial {
                 nontrivial.insert(h);
@@ -708,11 +708,12 @@ pub fn batch(out: &str, tier: &str, seed: u64) -> Value {
     }
     let mut rng = Rng(seed ^ 0x6c696665);
     for _ in 0..nrand {
+        let gen_state = rng.0;
         let sc = rand_scenario(&mut rng);
         let mut ex = Explorer::new(Mode::Random, rng.next());
         for _ in 0..per {
             ex.begin_run();
-            let (evs, meta, bad) = one_run(&sc, &mut ex);
+            let (evs, meta, bad) = one_run(&sc, &mut ex, json!({"kind": "rand", "state": gen_state.to_string()}));
             let h = b.run(meta, &evs);
             if ex.nontrivial {
                 nontrivial.insert(h);
@@ -731,6 +732,24 @@ pub fn dispatch(cmd: &str, a: &std::collections::HashMap<String, String>) -> Opt
     let (out, tier, seed) = crate::common(a);
     match cmd {
         "lifecycle" => Some(batch(&out, &tier, seed)),
+        "lifecycle-replay" => {
+            // re-execute one recorded (scenario, schedule): --gen '{"kind":..}' --sched '[..]'
+            let gen: Value = serde_json::from_str(a.get("gen").map(|s| s.as_str()).unwrap_or("{}")).unwrap_or(json!({}));
+            let sched: Vec<usize> = serde_json::from_str(a.get("sched").map(|s| s.as_str()).unwrap_or("[]")).unwrap_or_default();
+            let sc = match gen.get("kind").and_then(|k| k.as_str()) {
+                Some("micro") => micro_scenarios().into_iter().nth(gen["idx"].as_u64().unwrap_or(0) as usize),
+                Some("rand") => gen["state"].as_str().and_then(|s| s.parse::<u64>().ok()).map(|st| rand_scenario(&mut Rng(st))),
+                _ => None,
+            };
+            let Some(sc) = sc else { return Some(json!({"runs": 0, "error": "unknown generator"})) };
+            let mut b = Batch::new(Some(&out));
+            let mut ex = Explorer::new(Mode::Replay(sched), 0);
+            ex.begin_run();
+            let (evs, meta, _bad) = one_run(&sc, &mut ex, gen.clone());
+            b.run(meta, &evs);
+            b.finish();
+            Some(json!({"runs": 1}))
+        }
         _ => None,
     }
 }
